@@ -65,7 +65,7 @@ def corpus(ctx):
     return cases, results, evaluated, reused
 
 
-def run_property(ctx, prop):
+def run_property(ctx, prop, extra=None):
     cases, results, evaluated, reused = corpus(ctx)
     by_id = {c["id"]: c for c in cases}
     statuses = {}
@@ -87,6 +87,9 @@ def run_property(ctx, prop):
                 detail["spec"] = by_id[cid]["spec"]
                 ctx.violation(v["sig"], detail)
     cov = coverage_for(prop, cases, results, evaluated)
+    if extra is not None:
+        cov.update(extra(ctx, cases, results))
+        cov["evaluations"] += cov.get("planted_pavexc_executions", 0)
     cov["rule"] = RULES[prop]
     cov["case_statuses"] = statuses
     cov["observations_reused_for_same_tree"] = reused
